@@ -168,6 +168,7 @@ func checkC17(c *Ctx, r *Report) {
 		r.Fail("C17-race", "found %d go statements with closures in package fbb, expected the two status reporters", nGo)
 	}
 	sessionFieldRule(c, r, "C17-owner")
+	c17Extra4(c, r)
 	r.NotCov = append(r.NotCov, "numeric range of BytesTransferred", "races inside the application's StatusUpdater or net.Conn implementation", "the *Proposal handed to UpdateStatus (escapes to the application)")
 }
 
